@@ -394,7 +394,7 @@ var bounds = map[string][2]int{"S1": {1, 2}, "S2": {2, 3}, "S3": {2, 3}, "S4": {
 var costFree = map[string]bool{"S3": true, "S4": true, "S8": true}
 
 func spaces() (out []*explore.Space) {
-	if os.Getenv("VERIF_C14_ONLY") == "" {
+	if only := os.Getenv("VERIF_C14_ONLY"); only == "" || only == "queue-timing" {
 		// first: a wrong tree may make the managed scenarios hang (a construct the scheduler does not control)
 		out = append(out, &explore.Space{Name: "queue-timing", Body: queueTiming, Bound: func(string) int { return -1 }})
 	}
